@@ -13,7 +13,7 @@ ASSUMPTIONS = ['element type abstracted to an int tag: copies/moves are value co
                'postconditions speak about two adjacent tracked element indices g_k, g_k+1 (arbitrary): what holds for them holds for every index',
                'inline capacities N in {1, 4} (quick) and {1, 2, 4, 64} (thorough); alignof(T) in {8, 64}: N and alignof(T) only enter comparisons',
                'range-for over another SmallVector is rendered as the index loop over [0, rawSize()) of its data() (begin() = data(), end() = data() + rawSize(), one-line bodies checked textually)',
-               'iterator-pair / initializer_list / (count[, value]) constructors, operator[], front/back, iterators are not under contract']
+               'iterator-pair / initializer_list constructors, operator[], front/back, iterators are not under contract; SmallVector(count[, value]) is proved through the contract of resize']
 EXPLANATION = 'every mutating operation against the std::vector effect on an arbitrary pair of adjacent indices, with lifetime, bounds and alignment obligations at each element access'
 
 F = 'dispenso/small_vector.h'
@@ -118,6 +118,8 @@ def build(ctx):
           ('R17', r'this\s*!=\s*&other', 'self != other', 'opt'), ('R10', r'return\s+\*this;', 'return;', 'opt')]
     em('SV_copy_ctor', r'SmallVector\s*\(\s*const\s+SmallVector&\s+other\s*\)', must=['R6'], extra=RF, ctor=True)
     em('SV_copy_assign', r'SmallVector&\s+operator=\s*\(\s*const\s+SmallVector&\s+other\s*\)', must=['R6'], extra=RF)
+    em('SV_ctor_count', r'explicit\s+SmallVector\s*\(\s*size_type\s+count\s*\)', ctor=True, extra=[('R17', r'(?<![\w.>])resize\(count\);', 'SV_resize(self, count);', 1)])
+    em('SV_ctor_count_value', r'SmallVector\s*\(\s*size_type\s+count\s*,\s*const\s+T&\s+value\s*\)', ctor=True, extra=[('R17', r'(?<![\w.>])resize\(count,\s*value\);', 'SV_resize_value(self, count, value);', 1)])
     em('SV_move_assign', r'SmallVector&\s+operator=\s*\(\s*SmallVector&&\s+other\s*\)\s*noexcept', must=['R12'],
        extra=[('R17', r'this\s*!=\s*&other', 'self != other', 1), ('R10', r'return\s+\*this;', 'return;', 1)])
     S = 'specs/c38_smallvector.c'
@@ -137,6 +139,8 @@ def build(ctx):
         # vectors of at most BOUND elements -- bounded stand-ins, never counted as proved (loop contracts over the block table did not
         # close in the time available: DESIGN section 5, C38)
         bd = dict(d); bd['SIZE_BOUND'] = str(BOUND)
+        for fn, callee in (('SV_ctor_count', 'SV_resize'), ('SV_ctor_count_value', 'SV_resize_value')):
+            units.append(Unit('SmallVector::' + fn[3:], 'cbmc', S, fn, replace=acc + [callee], **common))     # no element loop left: resize is used through its contract, count unbounded
         copy_here = (ctx.tier == 'thorough') or (n, al) == (1, 8)     # the copy units take ~4 min each: one instantiation in the quick tier
         for fn in ('SV_growToHeap', 'SV_destroyAll', 'SV_ensureCapacity', 'SV_emplace_back', 'SV_pop_back', 'SV_clear', 'SV_reserve', 'SV_dtor', 'SV_resize', 'SV_resize_value', 'SV_erase', 'SV_move_ctor', 'SV_move_assign', 'SV_copy_ctor', 'SV_copy_assign'):
             if fn in ('SV_copy_ctor', 'SV_copy_assign') and not copy_here:
